@@ -105,6 +105,7 @@ type progOpts struct {
 	fixedKey string // probes of recorded findings report under this key
 	r1Fuel   int
 	r1Depth  int
+	sugar    bool   // write (syntaxQuote x) / (unquote x) / (unquote-splicing x) with the reader sugar ^ ~ ~@
 	keyExtra string // replaces the shape part of the violation key
 	onEnv    func(tr *zy.Traced)
 }
@@ -174,7 +175,17 @@ func diffProgram(c *engine.Ctx, id string, prelude, forms []*ref.T, style int, o
 	if o.onEnv != nil {
 		o.onEnv(tr)
 	}
-	res := tr.Run(layout(forms, style))
+	text := layout(forms, style)
+	if o.sugar {
+		ref.Sugar = true
+		var parts []string
+		for _, f := range forms {
+			parts = append(parts, f.Text())
+		}
+		ref.Sugar = false
+		text = strings.Join(parts, " ")
+	}
+	res := tr.Run(text)
 	kd := o.keyDepth
 	if kd == 0 {
 		kd = 3
@@ -188,7 +199,7 @@ func diffProgram(c *engine.Ctx, id string, prelude, forms []*ref.T, style int, o
 		if o.fixedKey != "" {
 			key = o.fixedKey
 		}
-		c.Violation(clause, key, w, detail+"\n  program: "+layout(forms, style))
+		c.Violation(clause, key, w, detail+"\n  program: "+text)
 	}
 	mt := strings.Join(mo.Trace, ",")
 	it := strings.Join(tr.Trace, ",")
@@ -255,4 +266,28 @@ func replayProgram(c *engine.Ctx, id string, prelude []*ref.T, w string, probes 
 	if res.tr != nil {
 		res.tr.Env.Close()
 	}
+}
+
+type tracedRun struct {
+	tr *zy.Traced
+	r  zy.Res
+}
+
+// runTraced evaluates prelude, extra setup text and the forms on a fresh
+// standard interpreter with the traced host functions.
+func runTraced(prelude, forms []*ref.T, setup string) tracedRun {
+	return runTracedText(prelude, layout(forms, 0), setup)
+}
+
+func runTracedText(prelude []*ref.T, text string, setup string) tracedRun {
+	tr := zy.NewTraced(false)
+	zygo.VerifSetStepBudget(500000)
+	if r := tr.Run(layout(prelude, 0)); !r.OK() {
+		panic("prelude failed: " + r.String())
+	}
+	if setup != "" {
+		tr.Run(setup)
+	}
+	tr.Trace = nil
+	return tracedRun{tr: tr, r: tr.Run(text)}
 }
